@@ -986,6 +986,9 @@ func typeAssert(i *interpreter, instr *ssa.TypeAssert, itf iface) value {
 	return v
 }
 
+type sliceDataPtr struct{ s []value }
+type stringDataPtr struct{ s value }
+
 // This variable is no longer used but remains to prevent build breakage.
 var CapturedOutput *bytes.Buffer
 
@@ -1147,6 +1150,35 @@ func callBuiltin(caller *frame, callpos token.Pos, fn *ssa.Builtin, args []value
 
 	case "ssa:deferstack":
 		return &caller.defers
+
+	case "SliceData": // unsafe.SliceData
+		return sliceDataPtr{args[0].([]value)}
+	case "StringData": // unsafe.StringData
+		return stringDataPtr{args[0]}
+	case "String": // unsafe.String(ptr, len)
+		n := int(caller.concInt(args[1]))
+		switch p := args[0].(type) {
+		case sliceDataPtr:
+			return normStr(append([]value(nil), p.s[:n]...))
+		case stringDataPtr:
+			return normStr(append([]value(nil), strBytes(p.s)[:n]...))
+		}
+		if n == 0 {
+			return ""
+		}
+		panic(fmt.Sprintf("unsafe.String on %T", args[0]))
+	case "Slice": // unsafe.Slice(ptr, len)
+		n := int(caller.concInt(args[1]))
+		switch p := args[0].(type) {
+		case sliceDataPtr:
+			return p.s[:n:n]
+		case stringDataPtr:
+			return append([]value(nil), strBytes(p.s)[:n]...)
+		}
+		if n == 0 {
+			return []value(nil)
+		}
+		panic(fmt.Sprintf("unsafe.Slice on %T", args[0]))
 	}
 
 	panic("unknown built-in: " + fn.Name())
